@@ -1200,6 +1200,13 @@ func (p *pinner) Update(ctx context.Context, from, to cid.Cid, unpin bool) error
 		return err
 	}
 
+	// Recursive supersedes direct: drop any direct pin of `to`, as pinning it
+	// recursively does.
+	_, err = p.removePinsForCid(ctx, to, ipfspinner.Direct)
+	if err != nil {
+		return err
+	}
+
 	if unpin {
 		_, err = p.removePinsForCid(ctx, from, ipfspinner.Recursive)
 		if err != nil {
